@@ -423,6 +423,7 @@ def explore(ctx, drv, model, cases, search=False):
         else:
             ndis += 1
             if ndis <= 4:
+                ctx.notes.append("model/implementation mismatch: case `%s` verdict %s" % (p["case"], v[:700]))
                 ctx.broken.append({"kind": "correspondence", "name": "C10 diff tree",
                                    "detail": "case `%s`\n x = %s\n e = %s\n program = %s\n verdict: %s" % (
                                        p["case"], p["x"], p["e"], p.get("prog", "")[:600], v[:900])})
